@@ -449,8 +449,11 @@ def run_check(prop: str, tier: str, seed: int) -> int:
 
     for k, n in sorted(known_hits.items()):
         print(f"KNOWN-FINDING: property={prop} {k}: {known[k].get('mechanism', '')} (observed {n}x)")
+    rdir = VERIF / "replays" / prop
+    if rdir.exists() and not os.environ.get("RVMON_KEEP_REPLAYS"):
+        for old in rdir.glob("*.json"):
+            old.unlink()
     if unlisted:
-        rdir = VERIF / "replays" / prop
         rdir.mkdir(parents=True, exist_ok=True)
         seen = set()
         for v in unlisted:
